@@ -64,7 +64,8 @@ impl<T: FiItem> Alpha<T> {
 }
 
 fn sc<T: FiItem>(s: &FrequentItemsSketch<T>) -> Value {
-    json!({"na": s.num_active_items(), "off": s.maximum_error(), "wt": s.total_weight(), "lg": s.lg_cur_map_size()})
+    json!({"na": s.num_active_items(), "off": s.maximum_error(), "wt": s.total_weight(), "lg": s.lg_cur_map_size(),
+        "lgm": s.lg_max_map_size(), "mcap": s.maximum_map_capacity()})
 }
 
 fn slots<T: FiItem>(s: &FrequentItemsSketch<T>, a: &Alpha<T>) -> Value {
@@ -265,6 +266,15 @@ fn scenarios<T: FiItem>(out: &mut Shards, rng: &mut Rng, thorough: bool, full: b
                 let e = s.rt(id);
                 s.chk(e);
             }
+        }
+        // configurations below the minimum map size (new(1), new(2), new(4)) behave as new(8)
+        for &lgreq in &[0u8, 1, 2] {
+            let a = Alpha::<T> { items: clustered_items(&mut *rng, 3, 14) };
+            let mut s = Sess::new(&mut *out, "fi-tiny", a);
+            let id = s.new_sketch(lgreq);
+            stream(&mut s, &mut *rng, id, 14, 60, 0);
+            let r = s.rt(id);
+            stream(&mut s, &mut *rng, r, 14, 20, 2);
         }
         // Appendix B: all-equal counts make the purge remove every counter, then merge / serialize
         for &lgmax in &[3u8, 4, 5] {
